@@ -50,6 +50,33 @@ impl ShortMessage for ForeignTb {
     }
 }
 
+/// A message object over a corrupt device buffer: one of its getters panics (as `U7::new` does
+/// on a byte above 127). The unwinding is silent (`resume_unwind` does not run the panic hook).
+struct Panicky {
+    b: [u8; 3],
+    which: u8,
+}
+struct Aborted;
+impl Panicky {
+    fn get(&self, i: usize) -> u8 {
+        if self.which as usize == i {
+            std::panic::resume_unwind(Box::new(Aborted));
+        }
+        self.b[i]
+    }
+}
+impl ShortMessage for Panicky {
+    fn status_byte(&self) -> u8 {
+        self.get(0)
+    }
+    fn data_byte_1(&self) -> U7 {
+        U7::new(self.get(1))
+    }
+    fn data_byte_2(&self) -> U7 {
+        U7::new(self.get(2))
+    }
+}
+
 macro_rules! with_repr {
     ($raw:expr, $b:expr, $repr:expr, |$m:ident| $body:expr) => {
         match $repr {
@@ -109,6 +136,36 @@ fn feed_scn_on(hop: bool, s: &mut Scn, raw: &RawShortMessage, b: [u8; 3], repr: 
     let r_pn = api_on(hop, L::pn_feed, || with_repr!(*raw, b, repr, |m| s.pn.feed(m)))?;
     let r_po = api_on(hop, L::polling_feed, || with_repr!(*raw, b, repr, |m| s.po.feed(m)))?;
     Ok((r_cc, r_pn, r_po))
+}
+
+/// The feed of the main instance. A panic inside one of the three calls is C18's business, but the
+/// other properties are owed an answer too: the call "returned nothing", which is what the
+/// caller of a caught panic is left with, and every observer judges that. The run goes on (the
+/// scanner is still a value the host holds).
+fn feed_main(hop: bool, s: &mut Scn, raw: &RawShortMessage, b: [u8; 3], repr: u8) -> (Res3, Option<L>) {
+    let mut pan = None;
+    let r_cc = match api_on(hop, L::cc14_feed, || with_repr!(*raw, b, repr, |m| s.cc.feed(m))) {
+        Ok(r) => r,
+        Err(Panicked(l)) => {
+            pan = Some(l);
+            None
+        }
+    };
+    let r_pn = match api_on(hop, L::pn_feed, || with_repr!(*raw, b, repr, |m| s.pn.feed(m))) {
+        Ok(r) => r,
+        Err(Panicked(l)) => {
+            pan = Some(l);
+            None
+        }
+    };
+    let r_po = match api_on(hop, L::polling_feed, || with_repr!(*raw, b, repr, |m| s.po.feed(m))) {
+        Ok(r) => r,
+        Err(Panicked(l)) => {
+            pan = Some(l);
+            [None, None]
+        }
+    };
+    ((r_cc, r_pn, r_po), pan)
 }
 
 fn pn_img(m: &ParameterNumberMessage) -> Pn {
@@ -324,6 +381,9 @@ pub struct Exec<'a> {
     w_c17: bool,
     /// number of upcoming calls on the main instance that run on another OS thread
     hop: u32,
+    /// a call on the main instance panicked during the current step (allocation by the panic
+    /// machinery is then not blamed on C18.alloc)
+    main_panicked: bool,
 }
 
 const MAX_GROUPS: usize = 1 << 16;
@@ -404,6 +464,7 @@ impl<'a> Exec<'a> {
             w_c17_reset_inflight: false,
             w_c17: false,
             hop: 0,
+            main_panicked: false,
         };
         e.p.runs = 1;
         e.p.timeout_class_runs[e.timeout_class] += 1;
@@ -450,6 +511,11 @@ impl<'a> Exec<'a> {
                             break 'outer;
                         }
                         let a = apimon::allocs_in_api();
+                        if e.main_panicked {
+                            e.main_panicked = false;
+                            allocs_seen = a;
+                            e.p.panics_on_main_answered_as_nothing += 1;
+                        }
                         e.sink.check(R::C18_alloc, a == allocs_seen, || format!("{} heap allocation(s) inside API regions while executing event {}: {}", a - allocs_seen, j, ev.to_json().compact()));
                         allocs_seen = a;
                     }
@@ -538,6 +604,39 @@ impl<'a> Exec<'a> {
         })?;
         let ok = a == is_cc14_cn(n) && b == if n < 32 { Some(n + 32) } else { None } && c == is_pn_cn(n);
         self.sink.check(R::C16_predicate, ok, || format!("controller {}: can_be_part_of_14_bit={} corresponding_lsb={:?} is_parameter_number={}", n, a, b, c));
+        Ok(())
+    }
+
+    /// A feed that unwinds out of the caller's own message object (caught by the host): no message
+    /// was delivered, so no observer and no shadow instance hears of it - whatever the scanners
+    /// made of it shows in what they do afterwards. A call that completes nevertheless (the
+    /// scanner never asked for the poisoned byte) is rolled back from the pre-call copy, so that
+    /// the event means "nothing was delivered" in every case.
+    fn do_feed_abort(&mut self, b: [u8; 3], which: u8) -> Result<(), Panicked> {
+        if b[0] < 0x80 || b[1] > 127 || b[2] > 127 {
+            return Ok(());
+        }
+        self.p.aborted_feeds += 1;
+        clk::set_now(self.now);
+        let before = api(L::scanner_copy, || self.main)?;
+        let msg = Panicky { b, which };
+        let m = &mut self.main;
+        let mut unwound = 0;
+        match api_expect_panic(L::cc14_feed, || m.cc.feed(&msg)) {
+            Ok(_) => m.cc = before.cc,
+            Err(()) => unwound += 1,
+        }
+        match api_expect_panic(L::pn_feed, || m.pn.feed(&msg)) {
+            Ok(_) => m.pn = before.pn,
+            Err(()) => unwound += 1,
+        }
+        match api_expect_panic(L::polling_feed, || m.po.feed(&msg)) {
+            Ok(_) => m.po = before.po,
+            Err(()) => unwound += 1,
+        }
+        self.p.aborted_feed_calls_unwound += unwound;
+        self.p.aborted_feed_calls_completed_and_rolled_back += 3 - unwound;
+        self.sig.b(0x70);
         Ok(())
     }
 
@@ -650,6 +749,7 @@ impl<'a> Exec<'a> {
             Ev::Fork { k, burst } => self.do_fork(*k, burst),
             Ev::Repeat { .. } => Ok(()),
             Ev::Snapshot => self.do_snapshot(),
+            Ev::FeedAbort { b, which } => self.do_feed_abort(*b, *which),
             Ev::Hop { n } => {
                 self.p.thread_hop_windows += 1;
                 self.hop = *n as u32;
@@ -1032,7 +1132,15 @@ impl<'a> Exec<'a> {
         let before = api(L::scanner_copy, || m.po)?;
         let t0 = self.now;
         clk::set_now(t0);
-        let r = api_on(hop, L::polling_poll, || m.po.poll(chn))?;
+        let r = match api_on(hop, L::polling_poll, || m.po.poll(chn)) {
+            Ok(r) => r,
+            Err(Panicked(l)) => {
+                // as for feeds: the caller of a caught panic got nothing; every observer judges that
+                self.main_panicked = true;
+                self.sink.check(R::C18_panic, false, || format!("panic in {} while polling channel {} on the main instance", apimon::LABEL_NAMES[l as usize], c));
+                None
+            }
+        };
         self.span = Span { a: t0, b: clk::now() };
         let unchanged = api(L::scanner_eq, || before == m.po)?;
         let img = match r.as_ref() {
@@ -1214,6 +1322,13 @@ impl<'a> Exec<'a> {
                 let n = api(L::telemetry_display_fromstr, || crate::surface::format_specs(b))?;
                 std::hint::black_box(n);
             }
+            if (b[1] as u32 + 3 * b[2] as u32) % 16 == 0 {
+                // now and then the host dumps its scanners, whatever state they are in
+                let m = &self.main;
+                let n = api(L::telemetry_display_fromstr, || crate::surface::debug_dump(&m.cc) + crate::surface::debug_dump(&m.pn) + crate::surface::debug_dump(&m.po))?;
+                std::hint::black_box(n);
+                self.p.scanner_debug_dumps += 1;
+            }
             let same = api(L::factory_ctor, || crate::surface::rebuild_and_read(b))?;
             if !same {
                 self.p.factory_rebuild_mismatch += 1;
@@ -1239,7 +1354,11 @@ impl<'a> Exec<'a> {
         let t0 = self.now;
         clk::set_now(t0);
         let hop = self.take_hop();
-        let (r_cc, r_pn, r_po) = feed_scn_on(hop, &mut self.main, &raw, b, repr)?;
+        let ((r_cc, r_pn, r_po), pan) = feed_main(hop, &mut self.main, &raw, b, repr);
+        if let Some(l) = pan {
+            self.main_panicked = true;
+            self.sink.check(R::C18_panic, false, || format!("panic in {} while feeding {:02x?} to the main instance", apimon::LABEL_NAMES[l as usize], b));
+        }
         self.span = Span { a: t0, b: clk::now() };
         let i_cc = match r_cc.as_ref() {
             Some(x) => Some(api(L::cc14_accessors, || c14_img(x))?),
@@ -1252,6 +1371,14 @@ impl<'a> Exec<'a> {
         let i_po: Out2 = api(L::pn_accessors, || [r_po[0].as_ref().map(pn_img), r_po[1].as_ref().map(pn_img)])?;
         if let Some(x) = r_cc.as_ref() {
             self.p.reports_cc14 += 1;
+            if apimon::full_surface() {
+                let y = *x;
+                let same = api(L::telemetry_display_fromstr, || crate::surface::debug_dump(x) > 0 && crate::surface::hash_of(x) == crate::surface::hash_of(&y))?;
+                self.p.message_debug_hash_checks += 1;
+                if !same {
+                    self.p.message_hash_mismatch += 1;
+                }
+            }
             if !telemetry(x.channel(), x.value(), x.value(), Some(x.msb_controller_number()))? {
                 self.p.telemetry_mismatch += 1;
             }
@@ -1264,6 +1391,12 @@ impl<'a> Exec<'a> {
             }
             self.p.telemetry_calls += 1;
             if apimon::full_surface() {
+                let y = *x;
+                let same = api(L::telemetry_display_fromstr, || crate::surface::debug_dump(x) > 0 && crate::surface::hash_of(x) == crate::surface::hash_of(&y))?;
+                self.p.message_debug_hash_checks += 1;
+                if !same {
+                    self.p.message_hash_mismatch += 1;
+                }
                 let (a, b) = api(L::pn_accessors, || (x.number().get(), x.value().get()))?;
                 self.p.garbled_parses += garbled_parse(a, b)? as u64 + 1;
             }
